@@ -425,6 +425,89 @@ def mi_garbage_job(empty_pair):
     return path
 
 
+def weighted_mi_job(features, n_states, normalized_weights=True):
+    """weighted_mi on a concrete feature table with SYMBOLIC observation weights: no exception on admissible input,
+    symmetric result, result independent of memory NumPy did not initialise (cells whose marginal product is zero),
+    arguments unmodified; under equal weights the result equals mutual_information(joint_counts(features))."""
+    mi_mod = loader.load('enspara.info_theory.mutual_info')
+    F = np.array(features, dtype=int)
+    T, nf = F.shape
+
+    def reference_uniform():
+        """MI of the empirical distribution, in the exact rational/log form used by the property (natural log)"""
+        import math
+        M = np.zeros((nf, nf))
+        for i in range(nf):
+            for j in range(nf):
+                for u in range(max(n_states)):
+                    for v in range(max(n_states)):
+                        puv = np.mean((F[:, i] == u) & (F[:, j] == v))
+                        pu, pv = np.mean(F[:, i] == u), np.mean(F[:, j] == v)
+                        if puv > 0:
+                            M[i, j] += puv * math.log(puv / (pu * pv))
+        return M
+
+    def path(ctx):
+        ctx.resolve_masks = True
+        W = [core.fresh_real('w') for _ in range(T)]
+        for x in W:
+            ctx.add(core.to_z3_real(x) > 0)
+        if normalized_weights:
+            ctx.add(core.to_z3_bool(sum(W[1:], W[0]) == 1))
+        A = funcs.np_array(W, dtype=float)
+        A0 = A.copy()
+        Fs = SArr.from_typed(F.copy())
+        exc = None
+        try:
+            m = mi_mod.weighted_mi(Fs, A, n_feature_states=list(n_states), normalize=False)
+        except Exception as e:
+            exc = e
+
+        def witness(model):
+            wc = np.array([float(ev(model, x)) for x in W])
+            out = {'inputs': {'features': F.tolist(), 'weights': wc.tolist(), 'n_feature_states': list(n_states)}, 'skip_compare': True}
+            n_el = max(n_states) ** 2 * nf * nf
+            with core.concrete_mode():
+                seen = poison_replay(lambda: mi_mod.weighted_mi(F.copy(), wc.copy(), n_feature_states=list(n_states), normalize=False), n_el, repeats=12)
+                uni = None
+                try:
+                    uni = mi_mod.weighted_mi(F.copy(), np.full(T, 1.0 / T), n_feature_states=list(n_states), normalize=False)
+                except Exception as e:
+                    uni = e
+            out['out'] = {'outcomes_observed': seen[:4]}
+            bad = []
+            excs = [x for x in seen if x.startswith("'EXC")]
+            if excs:
+                out['exception'] = excs[0][5:-1]
+            if len(seen) > 1:
+                bad.append('result-depends-on-heap-contents')
+            elif excs:
+                bad.append('raises ' + seen[0][5:-1])
+            else:
+                r = np.array(eval(seen[0]), dtype=float)
+                if not np.allclose(r, r.T, atol=1e-12):
+                    bad.append('result-not-symmetric')
+            if isinstance(uni, Exception):
+                bad.append('uniform weights raise ' + type(uni).__name__)
+            elif not np.allclose(uni, np.clip(reference_uniform(), 0, None), atol=1e-9):
+                bad.append('uniform-weights-result-differs-from-the-mutual-information-of-the-counts')
+            out['violated'] = bad
+            out['signature'] = 'weighted_mi:' + (bad[0] if bad else 'ok')
+            return out
+        if exc is not None:
+            return PathOut([('no-exception-on-admissible-input', False)], {}, witness, exc=type(exc).__name__,
+                           desc='raises %s: %s' % (type(exc).__name__, str(exc)[:100]))
+        vals = [c if isinstance(c, SFloat) else core.as_sfloat(c) for c in m.cells()]
+        indep, ng = independent_of_uninitialised(ctx, [v for v in vals if isinstance(v.v, z3.ExprRef) or isinstance(v.k, z3.ExprRef)])
+        raw = _raw(m)
+        obs = [('result-independent-of-uninitialised-memory', indep),
+               ('result-is-symmetric', conj([feq(raw[i, j], raw[j, i]) for i in range(nf) for j in range(i + 1, nf)])),
+               ('result-is-finite-and-non-negative', conj([core.sand(core.SBool.mk(core.as_sfloat(c).fin), core.as_sfloat(c) >= 0) for c in vals])),
+               ('arguments-unmodified', conj([x == y for x, y in zip(A.cells(), A0.cells())]) and bool(np.array_equal(Fs.typed(), F)))]
+        return PathOut(obs, {}, witness, desc='weighted_mi T=%d features=%d states=%s (uninitialised cells: %d)' % (T, nf, list(n_states), ng))
+    return path
+
+
 def pooled_job(T, ntraj=2, S=2, nsym=None):
     """mi_matrix over several trajectories computes MI from the POOLED counts (and no count table silently wraps)"""
     mi_mod = loader.load('enspara.info_theory.mutual_info')
@@ -510,6 +593,72 @@ def kl_job(n):
     return path
 
 
+def kl_general_job(n, pattern):
+    """relative entropy of two different distributions with a fixed zero pattern: pattern[i] = (P_i is zero, Q_i is zero).
+    log is abstracted to a real satisfying the tangent bounds 1 - 1/x <= log x <= x - 1 (strict away from 1), which is all
+    Gibbs' inequality needs."""
+    en = loader.load('enspara.info_theory.entropy')
+    mismatch = any((not pz) and qz for pz, qz in pattern)
+
+    def path(ctx):
+        ctx.resolve_masks = True
+        ctx.abstract_log = True
+        ctx.log_bounds = True
+        ctx.purify_div = True
+        P = [0.0 if pz else core.fresh_real('p') for pz, qz in pattern]
+        Q = [0.0 if qz else core.fresh_real('q') for pz, qz in pattern]
+        for x in P + Q:
+            if isinstance(x, core.SVal):
+                ctx.add(core.to_z3_real(x) > 0)
+        ctx.add(core.to_z3_bool(sum(P[1:], P[0]) == 1))
+        ctx.add(core.to_z3_bool(sum(Q[1:], Q[0]) == 1))
+        A, B = funcs.np_array(P, dtype=float), funcs.np_array(Q, dtype=float)
+        A0, B0 = A.copy(), B.copy()
+        exc = None
+        try:
+            d = en.kl_divergence(A, B)
+        except Exception as e:
+            exc = e
+
+        def witness(model):
+            pc = [float(ev(model, x)) if isinstance(x, core.SVal) else 0.0 for x in P]
+            qc = [float(ev(model, x)) if isinstance(x, core.SVal) else 0.0 for x in Q]
+            out = {'inputs': {'P': pc, 'Q': qc}, 'skip_compare': True}
+            with core.concrete_mode():
+                try:
+                    d2 = float(en.kl_divergence(np.array(pc), np.array(qc)))
+                except Exception as e:
+                    out.update(exception=repr(e), out=None, violated=['raises ' + type(e).__name__],
+                               signature='exception:' + type(e).__name__)
+                    return out
+            out['out'] = d2
+            bad = []
+            if mismatch:
+                if d2 != float('inf'):
+                    bad.append('relative entropy is not +inf although Q is zero where P is positive')
+            else:
+                if not d2 >= -1e-12:
+                    bad.append('relative-entropy-negative')
+                if abs(d2) < 1e-13 and max(abs(a - b) for a, b in zip(pc, qc)) > 1e-4:
+                    bad.append('relative-entropy-zero-for-different-distributions')
+            out['violated'] = bad
+            return out
+        if exc is not None:
+            return PathOut([('no-exception', False)], {}, witness, exc=type(exc).__name__,
+                           desc='raises %s: %s' % (type(exc).__name__, str(exc)[:100]))
+        dd = core.as_sfloat(d if not isinstance(d, np.ndarray) else cells(d)[0])
+        obs = []
+        if mismatch:
+            obs.append(('relative entropy is +inf when Q is zero somewhere P is positive', core.SBool.mk(dd.pinf)))
+        else:
+            obs.append(('relative-entropy-is-finite-and-non-negative', core.sand(core.SBool.mk(dd.fin), dd >= 0)))
+            same = conj([x == y for x, y in zip(P, Q)])
+            obs.append(('relative-entropy-zero-only-for-equal-distributions', core.sor(core.snot(dd == 0), same)))
+        obs.append(('inputs-unmodified', conj([x == y for x, y in zip(A.cells() + B.cells(), A0.cells() + B0.cells())])))
+        return PathOut(obs, {}, witness, desc='kl_divergence(P,Q) pattern=%s' % (pattern,))
+    return path
+
+
 def jobs(tier):
     J = []
     q = tier == 'quick'
@@ -528,6 +677,17 @@ def jobs(tier):
         add('norm_job', 'normalization[%s,%s]' % (nx, ny), nx=nx, ny=ny)
     for n in (2, 3):
         add('kl_job', 'kl-self[n=%d]' % n, n=n)
+    FF, TF, FT, TT = (False, False), (True, False), (False, True), (True, True)
+    pats = [(FF, FF), (FF, TF), (FF, FT), (TF, FT), (FF, FF, FF), (FF, FF, TF), (FF, FF, FT), (FF, TF, FT), (FF, FF, TT)]
+    if not q:
+        pats += [(FF, FF, FF, FF), (FF, FF, TF, FT), (FF, TF, TF), (FF, FT, FT)]
+    for pat in pats:
+        tag = ','.join(('0' if pz else 'p') + ('0' if qz else 'q') for pz, qz in pat)
+        add('kl_general_job', 'kl[P vs Q: %s]' % tag, n=len(pat), pattern=pat)
+    # weighted estimator: a state that a feature never takes (zero marginal) is where masked ufuncs leave cells unwritten
+    add('weighted_mi_job', 'weighted-mi[3 frames,states 2/2]', features=[[0, 0], [1, 1], [0, 1]], n_states=(2, 2))
+    add('weighted_mi_job', 'weighted-mi[3 frames,states 2/3, one state never taken]', features=[[0, 0], [1, 2], [0, 2]], n_states=(2, 3))
+    add('weighted_mi_job', 'weighted-mi[unnormalised weights]', features=[[0, 1], [1, 0], [1, 1]], n_states=(2, 2), normalized_weights=False)
     add('pooled_job', 'pooled-counts[2 trajectories x 3 frames]', T=3)
     add('pooled_job', 'pooled-counts[2 x 130 frames (2 symbolic each): count tables must not wrap in a narrow dtype]', T=130, nsym=2)
     from harness import kernels
